@@ -253,13 +253,55 @@ def subprocess_case(ctx, case):
                           expected=dict(out=out, labels=labels), observed=dict(status=p.returncode, out=now['out'], labels=now['labels']))
 
 
+def sequence_case(ctx, case):
+    """several runs in ONE output directory (rebuilds): case = dict(steps=[dict(prog, hex, compress)]).  After every successful step the three files must describe THAT step:
+    -o = its program, -l = its labels, and - when --hex-offset was given - a .hex that decodes to its bytes at its offset (an older .hex may stay only when the option is absent)."""
+    asm = kernel.boot()
+    base = trees.fresh_dir(os.path.join(kernel.scratch('_c17'), 'seq'))
+    outp, labp, hexp = (os.path.join(base, n) for n in ('o.bin', 'l.txt', 'o.bin.hex'))
+    for n, step in enumerate(case['steps']):
+        main = os.path.join(base, 'main%d.asm' % n)
+        open(main, 'w').write(PROGRAMS[step['prog']])
+        argv = [main, '-o', outp, '-l', labp] + (['-c'] if step.get('compress') else []) + (['--hex-offset', step['hex']] if step.get('hex') is not None else [])
+        hex_before = open(hexp, 'rb').read() if os.path.exists(hexp) else None
+        ctx.count('runs')
+        try:
+            st, so, se = trees.run_cli(asm, argv, base)
+        except BaseException as e:
+            st, so, se = 'exception:' + type(e).__name__, '', repr(e)
+        labels = {}
+        out = bytes(asm.assemble(main, compress=bool(step.get('compress')), labels=labels))
+        problems = []
+        if st != 0:
+            problems.append('exit %r: %s' % (st, se[-120:]))
+        if not os.path.exists(outp) or open(outp, 'rb').read() != out:
+            problems.append('-o does not hold the program of this step')
+        if not os.path.exists(labp) or sorted(open(labp).read().splitlines(True)) != sorted('%s 0x%08x\n' % kv for kv in labels.items()):
+            problems.append('-l does not hold the labels of this step')
+        if step.get('hex') is not None:
+            try:
+                mem = D.read_ihex(open(hexp, 'rb').read().decode('ascii'))
+                off = int(step['hex'], 0)
+                if mem != {off + i: b for i, b in enumerate(out)}:
+                    problems.append('.hex decodes to %d bytes at %s, this step wrote %d bytes at %#x' % (len(mem), hex(min(mem)) if mem else None, len(out), off))
+            except Exception as e:
+                problems.append('.hex unreadable: %r' % e)
+        elif (open(hexp, 'rb').read() if os.path.exists(hexp) else None) != hex_before:
+            problems.append('.hex modified although --hex-offset was not given')
+        if problems:
+            ctx.violation('%s:sequence:step%d:%s' % (PROP, n, problems[0].split(':')[0].split()[0]), 'rebuild sequence %s, step %d: %s' % (case['steps'], n, '; '.join(problems)), 'sequence_case', case,
+                          expected='files describe step %d' % n, observed=problems)
+            return
+    ctx.count('successful_runs', len(case['steps']))
+
+
 def extra_task(ctx, items):
     for name, case in items:
         DRIVERS[name](ctx, case)
         ctx.count('cases')
 
 
-DRIVERS = {'cli_case': cli_case, 'subprocess_case': subprocess_case}
+DRIVERS = {'cli_case': cli_case, 'subprocess_case': subprocess_case, 'sequence_case': sequence_case}
 
 
 def run(tier, seed, t0):
@@ -304,7 +346,12 @@ def run(tier, seed, t0):
     m = kernel.explore(cli_task, list(kernel.chunks(cases, 50)))
     sub = [('subprocess_case', dict(natural=k, compress=c)) for k in list(NATURAL)[:: (1 if tier == 'thorough' else 3)] for c in (False, True)]
     sub += [('subprocess_case', dict(hex=h, compress=c)) for h in [None, '0x08000000'] + HEX_INVALID[:: (1 if tier == 'thorough' else 2)] for c in (False, True)]
-    m = kernel.explore(extra_task, [[s] for s in sub], merged=m)
+    # rebuild sequences in one output directory: every ordered pair / triple of (program, hex option, mode) steps over a small step alphabet
+    steps = [dict(prog=p, hex=h, compress=c) for p in ('plain', 'labels') for h in (None, '0', '0x08000000') for c in (False, True)]
+    seqs = [[a, b] for a in steps for b in steps]
+    seqs += [[a, b, c] for a in steps[::2] for b in steps[1::3] for c in steps if c['hex'] is not None]
+    sub += [('sequence_case', dict(steps=q)) for q in seqs]
+    m = kernel.explore(extra_task, list(kernel.chunks(sub, 8)), merged=m)
     n = m.n
     cov = dict(states=n['cases'], transitions=n['runs'], traces_validated_against_impl=n['runs'], evaluations=n['runs'], distinct_nontrivial=n['failing_runs'],
                rule='one state per (program, option set, crash point); one execution of the real cli_main each (plus real sub-processes for a sub-set); non-trivial = runs that must fail '
